@@ -159,6 +159,34 @@ fn self_exe() -> PathBuf {
     std::env::current_exe().expect("current_exe")
 }
 
+/// Wall-clock cap for a single run; a worker stuck longer is killed and the run reported.
+pub fn per_run_cap_secs(tier: Tier) -> u64 {
+    std::env::var("VERIF_RUN_CAP_SECS").ok().and_then(|s| s.parse().ok()).unwrap_or(match tier {
+        Tier::Quick => 60,
+        Tier::Thorough => 180,
+    })
+}
+
+/// Run a command, killing it after `secs`. None = killed on timeout.
+pub fn run_with_deadline(cmd: &mut Command, secs: u64) -> Option<std::process::ExitStatus> {
+    let mut child = cmd.spawn().ok()?;
+    let t0 = Instant::now();
+    loop {
+        match child.try_wait() {
+            Ok(Some(st)) => return Some(st),
+            Ok(None) => {
+                if t0.elapsed().as_secs() >= secs {
+                    let _ = child.kill();
+                    let _ = child.wait();
+                    return None;
+                }
+                std::thread::sleep(std::time::Duration::from_millis(20));
+            }
+            Err(_) => return None,
+        }
+    }
+}
+
 pub fn run_batch(
     def: &'static CheckDef,
     tier: Tier,
@@ -170,70 +198,103 @@ pub fn run_batch(
 ) -> Batch {
     let (from, to) = indices;
     let workers = workers.max(1).min((to - from).max(1));
-    let mut children = Vec::new();
-    for w in 0..workers {
-        let child = Command::new(self_exe())
-            .arg("worker")
-            .arg(def.id)
-            .arg("--tier")
-            .arg(tier.name())
-            .arg("--base")
-            .arg(base.to_string())
-            .arg("--from")
-            .arg((from + w).to_string())
-            .arg("--to")
-            .arg(to.to_string())
-            .arg("--step")
-            .arg(workers.to_string())
-            .arg("--samples")
-            .arg(samples.to_string())
-            .arg("--max-secs")
-            .arg(max_secs.to_string())
-            .stdout(Stdio::piped())
-            .stderr(Stdio::null())
-            .spawn()
-            .expect("spawn worker");
-        children.push(child);
-    }
+    let run_cap = per_run_cap_secs(tier);
     let mut handles = Vec::new();
-    for mut child in children {
+    for w in 0..workers {
         handles.push(std::thread::spawn(move || {
-            let stdout = child.stdout.take().expect("stdout");
-            let reader = BufReader::new(stdout);
-            let mut items = Vec::new();
-            let mut last_start: Option<(u64, u64)> = None;
+            let mut items: Vec<BatchItem> = Vec::new();
+            let mut crashed: Vec<(u64, u64, String)> = Vec::new();
             let mut capped = false;
-            for line in reader.lines() {
-                let Ok(line) = line else { break };
-                match serde_json::from_str::<WorkerMsg>(&line) {
-                    Ok(WorkerMsg::Start { i, seed }) => last_start = Some((i, seed)),
-                    Ok(WorkerMsg::Done {
-                        i,
-                        seed,
-                        report,
-                        scenario,
-                    }) => {
-                        last_start = None;
-                        items.push(BatchItem {
-                            i,
-                            seed,
-                            report,
-                            scenario,
-                        });
+            let mut next = from + w;
+            let mut respawns = 0;
+            let errfile = std::env::temp_dir().join(format!("vsim-{}-w{}.err", std::process::id(), w));
+            while next < to && respawns < 40 {
+                let err = std::fs::File::create(&errfile).ok();
+                let mut child = Command::new(self_exe())
+                    .arg("worker")
+                    .arg(def.id)
+                    .arg("--tier")
+                    .arg(tier.name())
+                    .arg("--base")
+                    .arg(base.to_string())
+                    .arg("--from")
+                    .arg(next.to_string())
+                    .arg("--to")
+                    .arg(to.to_string())
+                    .arg("--step")
+                    .arg(workers.to_string())
+                    .arg("--samples")
+                    .arg(samples.to_string())
+                    .arg("--max-secs")
+                    .arg(max_secs.to_string())
+                    .stdout(Stdio::piped())
+                    .stderr(err.map(Stdio::from).unwrap_or_else(Stdio::null))
+                    .spawn()
+                    .expect("spawn worker");
+                let pid = child.id() as i32;
+                let started: std::sync::Arc<std::sync::Mutex<Option<Instant>>> = std::sync::Arc::new(std::sync::Mutex::new(None));
+                let done = std::sync::Arc::new(std::sync::atomic::AtomicBool::new(false));
+                let timed_out = std::sync::Arc::new(std::sync::atomic::AtomicBool::new(false));
+                let wd = {
+                    let started = started.clone();
+                    let done = done.clone();
+                    let timed_out = timed_out.clone();
+                    std::thread::spawn(move || {
+                        while !done.load(std::sync::atomic::Ordering::Relaxed) {
+                            std::thread::sleep(std::time::Duration::from_millis(200));
+                            let s = *started.lock().unwrap();
+                            if let Some(t) = s {
+                                if t.elapsed().as_secs() >= run_cap {
+                                    timed_out.store(true, std::sync::atomic::Ordering::Relaxed);
+                                    unsafe { libc::kill(pid, libc::SIGKILL); }
+                                    break;
+                                }
+                            }
+                        }
+                    })
+                };
+                let stdout = child.stdout.take().expect("stdout");
+                let reader = BufReader::new(stdout);
+                let mut last_start: Option<(u64, u64)> = None;
+                for line in reader.lines() {
+                    let Ok(line) = line else { break };
+                    match serde_json::from_str::<WorkerMsg>(&line) {
+                        Ok(WorkerMsg::Start { i, seed }) => {
+                            last_start = Some((i, seed));
+                            *started.lock().unwrap() = Some(Instant::now());
+                        }
+                        Ok(WorkerMsg::Done { i, seed, report, scenario }) => {
+                            last_start = None;
+                            *started.lock().unwrap() = None;
+                            items.push(BatchItem { i, seed, report, scenario });
+                        }
+                        Ok(WorkerMsg::Capped { .. }) => capped = true,
+                        Err(_) => {}
                     }
-                    Ok(WorkerMsg::Capped { .. }) => capped = true,
-                    Err(_) => {}
+                }
+                let status = child.wait().ok();
+                done.store(true, std::sync::atomic::Ordering::Relaxed);
+                let _ = wd.join();
+                match last_start {
+                    Some((i, seed)) => {
+                        let reason = if timed_out.load(std::sync::atomic::Ordering::Relaxed) {
+                            format!("timeout: run exceeded {run_cap} s of wall clock")
+                        } else {
+                            let errtxt = std::fs::read_to_string(&errfile).unwrap_or_default();
+                            if let Some(l) = errtxt.lines().rev().find(|l| l.starts_with("VSIM-ALLOC-CAP")) {
+                                format!("alloc_cap: single allocation request over the cap ({l})")
+                            } else {
+                                format!("died: {}", status.map(|s| format!("{s}")).unwrap_or_else(|| "unknown".into()))
+                            }
+                        };
+                        crashed.push((i, seed, reason));
+                        next = i + workers;
+                        respawns += 1;
+                    }
+                    None => break,
                 }
             }
-            let status = child.wait().ok();
-            let crashed = match (last_start, status) {
-                (Some((i, seed)), st) => Some((
-                    i,
-                    seed,
-                    st.map(|s| format!("{s}")).unwrap_or_else(|| "unknown".into()),
-                )),
-                _ => None,
-            };
+            let _ = std::fs::remove_file(&errfile);
             (items, crashed, capped)
         }));
     }
@@ -245,9 +306,7 @@ pub fn run_batch(
     for h in handles {
         let (items, crashed, capped) = h.join().expect("reader thread");
         batch.items.extend(items);
-        if let Some(c) = crashed {
-            batch.crashed.push(c);
-        }
+        batch.crashed.extend(crashed);
         batch.capped |= capped;
     }
     batch.items.sort_by_key(|b| b.i);
@@ -456,18 +515,15 @@ pub fn check_main(def: &'static CheckDef, tier: Tier, opt: CheckOptions) -> i32 
     let mut violation_lines: Vec<String> = Vec::new();
     for (i, seed, status) in &batch.crashed {
         let sc = (def.generate)(*seed, tier);
+        let kind = status.split(':').next().unwrap_or("died").to_string();
         let v = Violation {
             class: format!("{}.abort", def.id),
-            key: "worker_died".to_string(),
-            detail: format!("worker process died ({status}) while running index {i} seed {seed}"),
+            key: kind.clone(),
+            detail: format!("worker process lost while running index {i} seed {seed}: {status}"),
             event: 0,
         };
-        if match_known(&known, def.id, &v).is_some() {
-            println!(
-                "KNOWN-FINDING: property={} {} (index {i})",
-                def.id,
-                match_known(&known, def.id, &v).unwrap().what
-            );
+        if let Some(f) = match_known(&known, def.id, &v) {
+            println!("KNOWN-FINDING: property={} {} (index {i})", def.id, f.what);
             continue;
         }
         let rf = ReplayFile {
@@ -483,15 +539,19 @@ pub fn check_main(def: &'static CheckDef, tier: Tier, opt: CheckOptions) -> i32 
             scenario: sc,
             trace_tail: vec![],
         };
-        let path = root.join("replays").join(format!("{}-{}-abort.json", def.id, seed));
+        let path = root.join("replays").join(format!("{}-{}-abort-{}.json", def.id, seed, kind));
         let _ = std::fs::write(&path, serde_json::to_string_pretty(&rf).unwrap());
-        // confirm: replay alone in a fresh process; a crash again confirms
-        let st = Command::new(self_exe()).arg("replay").arg(&path).stdout(Stdio::null()).stderr(Stdio::null()).status();
+        // confirm: replay alone in a fresh process; dying or hanging again confirms
+        let st = run_with_deadline(
+            Command::new(self_exe()).arg("replay").arg(&path).stdout(Stdio::null()).stderr(Stdio::null()),
+            per_run_cap_secs(tier) * 2 + 5,
+        );
         match st {
-            Ok(s) if s.code() == Some(0) => {
-                harness_errors.push(format!("worker died at index {i} seed {seed} ({status}) but replay alone completes"));
+            Some(s) if s.code() == Some(0) => {
+                harness_errors.push(format!("worker lost at index {i} seed {seed} ({status}) but replay alone completes"));
             }
             _ => {
+                println!("violation class={} key={} detail={}", v.class, v.key, v.detail);
                 violation_lines.push(format!("VIOLATION property={} replay={}", def.id, path.display()));
                 exit_code = 1;
             }
